@@ -138,6 +138,10 @@ def chunks (w : Nat) : Nat → Bytes → List Bytes
   | 0, _ => []
   | n+1, bs => bs.take w :: chunks w n (bs.drop w)
 
+/-- the buffer does not hold the 36-byte prefix and `count * 82` further bytes -/
+def Ghost.short (bs : Bytes) : Bool :=
+  bs.length < 36 || (bs.drop 36).length < fromBE ((bs.drop 32).take 4) * 82
+
 /-- `GhostChainSync::deserialize`: every slice is unchecked; all of them are in range exactly when the
 buffer holds the 36-byte prefix and `count * 82` further bytes. -/
 def Ghost.decode (fl : CodecFlags) (bs : Bytes) : Res Ghost :=
@@ -306,7 +310,7 @@ def Msg.decode (fl : CodecFlags) (bs : Bytes) : Res Msg :=
     | 7 => .ok .ping
     | 8 => .ok .spv
     | 9 => (decServices b).map .services
-    | 10 => (Ghost.decode fl b).map .ghost
+    | 10 => if fl.msgGhostChecked && Ghost.short b then .err else (Ghost.decode fl b).map .ghost
     | 11 => if b.length ≠ 72 then .err else .ok (.ghostReq (u64 (b.take 8)) ((b.drop 8).take 32) (b.drop 40))
     | 12 => if b.length < 4 then .err else .ok (.app 12 (u32 (b.take 4)) (b.drop 4))
     | 13 => if b.length < 4 then .err else .ok (.app 13 (u32 (b.take 4)) (b.drop 4))
